@@ -89,6 +89,13 @@ impl<T> Route<T> {
     //@| loopend 1: proof { assert(pairs_done(parameters@, hs, rhs, i + 1, 0)); }
 }
 
+// ---- PINS: functions of /repo this unit (or the property it serves) only ASSUMES something about — a hand-written shim stands for them, or nothing at
+// all does. The assumption was made for one text of each; the token hash ties it to that text: a change makes the unit UNDECIDED (exit 2), never OK.
+//@@ pin src/marker/mod.rs :: impl MarkerString / fn capture = 99691c3ceeda
+//@@ pin src/marker/mod.rs :: impl StaticOrDynamic / fn capture = 93859b29e128
+//@@ pin src/router/route_header.rs :: impl RouteHeader / fn capture = c97eda766360
+//@@ pin src/marker/mod.rs :: impl StaticOrDynamic / fn new_with_markers = 38ca80c67820
+//@@ pin src/marker/mod.rs :: impl MarkerString / fn compile = 3b3f7edd1bda
 //@@ strlits
 } // verus!
 fn main() {}
